@@ -3166,3 +3166,9 @@ func CellOnPath(path []*ssa.BasicBlock, cell *ssa.Alloc) ssa.Value {
 	}
 	return last
 }
+
+// IsExtractOfAny reports whether v is some component of the tuple value tup.
+func IsExtractOfAny(v ssa.Value, tup ssa.Value) bool {
+	e, ok := v.(*ssa.Extract)
+	return ok && tup != nil && e.Tuple == tup
+}
